@@ -44,6 +44,14 @@ CORPUS = {
         node(0), node(1), node(2, [('a', inp(1)), ('b', inp(0))]), node(3, [('a', inp(1))], fails=[[0, 1, 'E2']]),
         node(4, [('a', inp(3))]), node(5, [('a', {'kind': 'oneof', 'cands': [4, 2]}), ('b', inp(0))]),
         node(6, [('a', inp(3)), ('b', inp(0)), ('c', inp(5))])]),
+    # a one-of evaluated late (inside a switch case) whose first candidate consumes the result of another one-of that had a
+    # losing candidate earlier: the losing candidate's exception was in the candidate's reduced DAG and the candidate was
+    # declared failed (the second candidate's value was returned)
+    'P18_oneof_after_losing_candidate': spec([
+        node(0), node(1, fails=FAIL), node(2), node(3, [('a', {'kind': 'oneof', 'cands': [1, 2]})]), node(4, [('a', inp(3))]),
+        node(5), node(6, [('a', inp(3))], body={'kind': 'label', 'v': 'l0'}),
+        node(7, [('a', {'kind': 'oneof', 'cands': [4, 5]})]),
+        node(8, [('a', {'kind': 'switch', 'decider': 6, 'cases': [['l0', 7]], 'name': 'sw0'}), ('b', inp(3))])]),
 }
 
 
@@ -113,6 +121,21 @@ MOTIFS = {
     'M12_outside_reader_of_rec_start': spec([
         node(0), node(1, has_additional=True), node(2, [('a', inp(1))], is_rec=True, recur_k=1),
         node(3, [('a', rec(1, 2, 2))]), node(4, [('a', inp(1))]), node(5, [('a', inp(3)), ('b', inp(4))])]),
+    # a one-of that is evaluated late (inside a switch case) whose candidate consumes the result of another one-of that
+    # was evaluated earlier and had a losing candidate (cross-one-of contamination)
+    'M13_oneof_after_losing_candidate': spec([
+        node(0), node(1, fails=FAIL), node(2), node(3, [('a', one(1, 2))]), node(4, [('a', inp(3))]), node(5),
+        node(6, [('a', inp(3))], body=LAB), node(7, [('a', one(4, 5))]),
+        node(8, [('a', sw(6, [('l0', 7)])), ('b', inp(3))])]),
+    # both candidates consume the other one-of; the first fails on its own, the second is tried after the losing
+    # candidate of the other one-of has been opened
+    'M14_second_candidate_after_losing_candidate': spec([
+        node(0), node(1, fails=FAIL), node(2), node(3, [('a', one(1, 2))]), node(4, fails=FAIL),
+        node(5, [('a', inp(3)), ('b', inp(4))]), node(6, [('a', inp(3))]), node(7, [('a', one(5, 6))])]),
+    # the losing candidate fails because of a private ancestor
+    'M15_losing_candidate_private_ancestor': spec([
+        node(0), node(1, fails=FAIL), node(2, [('a', inp(1))]), node(3), node(4, [('a', one(2, 3))]), node(5, fails=FAIL),
+        node(6, [('a', inp(4)), ('b', inp(5))]), node(7, [('a', inp(4))]), node(8, [('a', one(6, 7))])]),
     # wide layer (sibling concurrency) with retries
     'M9_wide_layer': spec([node(0)] + [node(i, [('a', inp(0))]) for i in range(1, 7)] +
                           [node(7, [('abcdef'[i - 1], inp(i)) for i in range(1, 7)])]),
